@@ -37,7 +37,7 @@ func Revisions() []Rev {
 	var out []Rev
 	for _, c := range policy.DefaultChecks() {
 		for _, v := range c.Versions {
-			out = append(out, Rev{ID: string(c.ID), Level: c.Level, Min: v.MinimumVersion, Fn: FuncName(v.CheckPod), Check: v.CheckPod})
+			out = append(out, Rev{ID: string(c.ID), Level: c.Level, Min: v.MinimumVersion, Fn: enc.RevisionLabel(string(c.ID), v.MinimumVersion.Major(), v.MinimumVersion.Minor(), FuncName(v.CheckPod)), Check: v.CheckPod})
 		}
 	}
 	return out
